@@ -265,5 +265,39 @@ pub fn cases(tier: &str, seed: u64) -> Vec<Case> {
         let p = r.below(b.len() as u64 + 2) as usize;
         push_case(&mut v, &b, p, "random-offset");
     }
+    // at the message level: an encoding the RFC decoder rejects, as the question name, as the owner name of a record in
+    // each section, and as a name inside RDATA - the message is an error wherever the name stands (no section is "only hints")
+    {
+        use simple_dns::Packet;
+        let long_label = { let mut b = vec![64u8]; b.extend_from_slice(&[b'x'; 64]); b.push(0); b };
+        let too_long = { let mut b = vec![]; for _ in 0..128 { b.extend_from_slice(&[1, b'a']); } b.push(0); b };
+        // (name bytes, what is wrong); `P` marks where the name's own offset goes for self / forward pointers
+        let bad: Vec<(Vec<u8>, &str)> = vec![
+            (vec![0x41, b'a', 0], "label-type-01"), (vec![0x81, b'a', 0], "label-type-10"), (long_label, "label-64"), (too_long, "name-257"),
+            (vec![0xC0, 0xFE], "pointer-self"), (vec![0xFF, 0xFF], "pointer-outside"), (vec![1, b'a', 0xC0, 0xFD], "pointer-cycle"),
+        ];
+        for (name, what) in &bad {
+            for place in 0..5usize {
+                // header counts: one entry in the place's section; a valid first question when the bad name is elsewhere
+                let mut m = vec![0u8, 9, 0x80, 0, 0, if place == 0 { 1 } else { 0 }, 0, if place == 1 || place == 4 { 1 } else { 0 }, 0, if place == 2 { 1 } else { 0 }, 0, if place == 3 { 1 } else { 0 }];
+                let at = m.len() + if place == 4 { 3 + 10 } else { 0 };
+                let fix = |n: &Vec<u8>, at: usize| -> Vec<u8> { let mut n = n.clone(); let k = n.len(); if k >= 2 && n[k - 2] == 0xC0 { match n[k - 1] { 0xFE => { n[k - 2] = 0xC0 | (at >> 8) as u8; n[k - 1] = at as u8; } 0xFD => { n[k - 2] = 0xC0 | (at >> 8) as u8; n[k - 1] = at as u8; } _ => {} } } n };
+                let nb = fix(name, at);
+                match place {
+                    0 => { m.extend_from_slice(&nb); m.extend_from_slice(&[0, 1, 0, 1]); }
+                    1 | 2 | 3 => { m.extend_from_slice(&nb); m.extend_from_slice(&[0, 1, 0, 1, 0, 0, 0, 5, 0, 4, 10, 0, 0, 1]); }
+                    _ => { m.extend_from_slice(&[1, b'o', 0, 0, 5, 0, 1, 0, 0, 0, 5]); m.extend_from_slice(&(nb.len() as u16).to_be_bytes()); m.extend_from_slice(&nb); }
+                }
+                // more bytes after it, so that nothing fails for lack of data alone
+                m.extend_from_slice(&[0u8; 6]);
+                let mm = m.clone();
+                watch(&format!("parse {}", text::hex(&m)));
+                let out = guard(move || match Packet::parse(&mm) { Ok(p) => format!("ok {}", text::packet(&p)), Err(_) => "err".to_string() });
+                let mut c = Case::new(format!("parse {}", text::hex(&m)), out.clone()).tag("message-bad-name").tag(&format!("place:{}", ["question", "answer", "authority", "additional", "rdata"][place]));
+                if class_of(&out) != "err" { c = c.fail("bad-name-accepted", format!("{} as the {} name of a message is not an error: {}", what, ["question", "answer owner", "authority owner", "additional owner", "CNAME target"][place], &out[..out.len().min(120)])); }
+                v.push(c);
+            }
+        }
+    }
     v
 }
